@@ -22,26 +22,32 @@ RULE = (
     'Valid namespaces, enumerated completely per family: (literals) chains of 1-3 nested workflows with one component '
     'template instantiated at every level under the same step name, every combination of per-link parameter modes '
     '{forwarded, defaulted, overridden, concatenated with text, integer} for m plus a second parameter built from the '
-    "caller's m and n; (references) producer 0-2 workflow levels below and consumer 0-2 forwarding levels below their "
-    'common ancestor, which itself is 0-1 levels below the entry workflow; every spelling of the producer location '
-    '(<a/b/s>, "<a>"/b/s quoted at every cut, <a>/b/s at every cut, or only a workflow prefix completed one level '
-    'lower through the parameter), the path (none, f.txt, d/f.txt) inside the brackets / after them / appended at every '
+    "caller's m and n, also used in a non-argument field; (environments) a dictionary parameter used as "
+    'command.environment, {defaulted, same, other, forwarded, empty, "none"}^2 at two depths x entry given/defaulted; '
+    '(references) producer 0-2 workflow levels below and consumer 0-2 forwarding levels below their common ancestor, '
+    'which itself is 0-1 levels below the entry workflow; every spelling of the producer location (<a/b/s>, '
+    '"<a>"/b/s quoted at every cut, <a>/b/s at every cut, or only a workflow prefix that is completed one level lower '
+    'through the parameter), the path (none, f.txt, d/f.txt) inside the brackets / after them / appended at every '
     'forwarding level, the method appended at every level from there down to the component arguments; quick rotates '
     'the 5 methods, same-or-distinct step names, quoting of %(p)s and whether the consumer uses the parameter once / '
     'twice / not at all in its arguments, thorough takes the full product of methods and step naming; (multi) '
     'hand-written shapes: one workflow template instantiated twice / at two depths, references into both instances, '
-    'diamond, chain of one template at three depths in both directions, swapped parameter names, entry = component; '
-    '(names) one template at three depths or as siblings with step names from {x,y,(X),x-I,x-II,I,x1,stage0.x,'
-    'stage1.x,stage1.x-I,entry-instance}^3 - names outside {x,y,X} are judged "either properly rejected or compiled '
-    'correctly"; (cycles) data-flow cycles. Invalid namespaces: every single-site mutation (22 operators: unknown / '
-    'removed argument, removed default, unknown parameter reference, reference to unknown / own / uncle step, renamed '
-    'or dropped nested step or path element, method inside <>, removed method, unknown template, duplicate template '
-    '(same and other kind), template recursion, step without execute / execute without step / duplicate execute, '
-    'missing entrypoint, unknown entry template, duplicate parameter) at every site of every representative namespace '
-    '(quick) or of every valid namespace (thorough; the two operators that currently make the compiler spin only on '
-    'representatives). The reference model classifies each mutant itself (valid / invalid / debatable / unmodelled); '
-    'mutants it classifies valid are judged as valid namespaces. A case is non-trivial if it has at least one '
-    'component step; distinct = distinct namespace document.')
+    'producers at overlapping locations (u/p and u/u/p) with paths spelled like steps, one reference fanned out to '
+    'several consumers, diamond, chain of one template at three depths in both directions, swapped parameter names, '
+    'entry = component; (names) one template at three depths or as two siblings plus a nested one, step names from '
+    '{x,y,x-I,x-II,I,x1,stage0.x,stage1.x}^3 (thorough adds X,stage1.x-I,x-IV,II) and entry-instance at one position - '
+    'a case with a name outside {x,y} is judged "either properly rejected or compiled correctly"; (cycles) data-flow '
+    'cycles between siblings and through a nested workflow. Invalid namespaces: every single-site mutation (22 '
+    'operators: unknown / removed argument, removed default, unknown parameter reference in arguments / component / '
+    'entrypoint, reference to unknown / own / uncle step, renamed or dropped nested step or path element, method '
+    'inside <>, removed method, unknown template, duplicate template (same and other kind), template recursion (direct '
+    'and to the entry workflow), step without execute / execute without step / duplicate execute, missing entrypoint, '
+    'unknown entry template, duplicate parameter) at every site of every representative namespace (one per '
+    'structure x spelling with the simplest path/method placement; all multi shapes); thorough additionally mutates '
+    'every literals namespace and every references namespace with method ref (except with the two segment operators, '
+    'which currently make the compiler spin). The reference model classifies each mutant itself (valid / invalid / '
+    'debatable / unmodelled); mutants it classifies valid are judged as valid namespaces. A case is non-trivial if it '
+    'has at least one reachable component step or is a mutant; distinct = distinct namespace document.')
 ASSUMPTIONS = [
     'the meaning of a namespace is the one given in the module documentation of experiment.model.frontends.dsl: '
     '%(p)s refers to a parameter of the enclosing template instance, <s/...> is relative to the workflow that spells it, '
@@ -357,7 +363,10 @@ def _bases(thorough):
 
 
 def _warm_up():
+    """one compilation outside the measurements: pays the one-time costs (lazy imports, regex caches)"""
+    mx = _STATE['max_cpu']
     observe(G.ns('main', {}, [G.wf('main', [], [('p', 'P', {})])], [G.comp('P', [('m', 'd')], 'm=%(m)s')]), budget=60.0)
+    _STATE['max_cpu'] = mx
 
 
 def worker(col, item, tier, seed):
